@@ -138,7 +138,7 @@ Definition raw_from_templated (tsts : tsts_t) (raw : list raw_slice) (r : N * N)
     end).
 
 (** [legacy = true]: the code before the two repairs — the empty edit list took the source-edit
-    branch (509ab8f) and the [CreateAfter] lower bound was an unchecked subtraction (133dede),
+    branch (2e9d8ea) and the [CreateAfter] lower bound was an unchecked subtraction (b64f167),
     whose behaviour depends on the build ([wrapping]). *)
 Definition fix_slices (legacy wrapping within_only : bool) (tsts : tsts_t) (raw : list raw_slice)
            (f : lintfix) : outcome (list bool) :=
@@ -149,7 +149,7 @@ Definition fix_slices (legacy wrapping within_only : bool) (tsts : tsts_t) (raw 
       match f_type f with
       | CreateBefore => raw_from_templated tsts raw (tpl_start m - 1, tpl_start m + adj)
       | CreateAfter =>
-          (* repaired (133dede): [end.saturating_sub(adjust_boundary)]; before: [end - adjust_boundary] *)
+          (* repaired (b64f167): [end.saturating_sub(adjust_boundary)]; before: [end - adjust_boundary] *)
           bind (if legacy then usize_sub wrapping site_create_after_underflow (tpl_stop m) adj
                 else Val (tpl_stop m - adj)) (fun lo =>
           raw_from_templated tsts raw (lo, tpl_stop m + 1))
